@@ -9,12 +9,14 @@ package c11
 
 import (
 	"bytes"
+	"context"
 	"encoding/json"
 	"fmt"
 	"os"
 	"os/exec"
 	"path/filepath"
 	"strings"
+	"time"
 
 	"github.com/anz-bank/sysl/pkg/sysl"
 
@@ -74,6 +76,9 @@ type docCase struct {
 	constructs []string
 	check      func(af *appFacts, c *checker, res *fw.Result)
 	xprocEvery int
+	// preflight names a construct known to be able to kill or hang the importer: the
+	// document is first imported in a child process under a progress bound.
+	preflight string
 }
 
 func (prop) Run(ctx *fw.Ctx, i int) fw.Result {
@@ -100,10 +105,8 @@ func oasCase(r *fw.Rand, v int, thorough bool) *docCase {
 	dc := &docCase{format: format, file: file, text: text, describe: d, constructs: d.constructs(format), xprocEvery: map[int]int{2: 10, 3: 6}[v]}
 	nrefs := d.Cons["ref"] || d.Cons["nested-object"] || d.Cons["array-of-ref"] || len(d.Paths) > 0
 	dc.nontrivial = len(d.Schemas) >= 2 && nrefs
-	for _, c := range []string{"prop-name-statement-keyword", "schema-name-keyword", "schema-name-native-type", "schema-name-native-prefix"} {
-		if d.Cons[c] {
-			dc.risky = append(dc.risky, c)
-		}
+	if d.Spice != "" {
+		dc.risky = []string{d.Spice}
 	}
 	dc.check = func(af *appFacts, c *checker, res *fw.Result) {
 		x := &oaChecker{checker: c, d: d, af: af}
@@ -122,6 +125,9 @@ func xsdCase(r *fw.Rand, thorough bool) *docCase {
 	d := genXSD(r.Fork(), thorough)
 	text := d.render(r.Fork())
 	dc := &docCase{format: "xsd", file: "schema.xsd", text: text, describe: d, constructs: d.constructs(), risky: d.risky(), xprocEvery: 10}
+	if d.Cons["recursive-type"] {
+		dc.preflight = "recursive-type"
+	}
 	dc.nontrivial = len(d.Types) >= 2 && (d.Cons["ref-complex"] || d.Cons["ref-simple"] || d.Cons["complexContent-extension"])
 	dc.check = func(af *appFacts, c *checker, res *fw.Result) {
 		x := &xChecker{checker: c, d: d, af: af}
@@ -136,6 +142,9 @@ func sqlCase(r *fw.Rand, dialect string, thorough bool) *docCase {
 	d := genSQL(r.Fork(), dialect, thorough)
 	text := d.render(r.Fork())
 	dc := &docCase{format: "sql", file: "schema.sql", formatName: dialect, text: text, describe: d, constructs: d.constructs(), xprocEvery: 6}
+	if d.Spice != "" {
+		dc.risky = []string{d.Spice}
+	}
 	dc.nontrivial = len(d.Tables) >= 2 || d.Cons["array-of-struct"]
 	dc.check = func(af *appFacts, c *checker, res *fw.Result) {
 		x := &sqlChecker{checker: c, d: d, af: af}
@@ -168,6 +177,18 @@ func runDoc(ctx *fw.Ctx, i int, dc *docCase) fw.Result {
 	desc, _ := json.MarshalIndent(dc.describe, "", " ")
 	files := map[string]string{dc.file: dc.text, "description.json": string(desc), "format.txt": dc.format + " " + dc.formatName}
 
+	// 0. constructs that can kill or hang the importer are tried in a child process first,
+	// under a progress bound (60 s; the importer's median for this size class is ~50 ms)
+	if dc.preflight != "" {
+		if exe, e := os.Executable(); e == nil {
+			kind, detail := childProbe(exe, path, dc.formatName, 60*time.Second)
+			if kind != "" {
+				res.Violate(dc.format+"|"+kind+"|"+dc.preflight, dc.format+": importing a well-formed document in a separate process: "+detail, with(files, "child-stderr.txt", detail))
+				return res
+			}
+		}
+	}
+
 	// 1. import (real code)
 	var out1 string
 	var err error
@@ -176,7 +197,7 @@ func runDoc(ctx *fw.Ctx, i int, dc *docCase) fw.Result {
 		return res
 	}
 	if err != nil {
-		res.Violate(dc.format+"|import-error|"+fw.MsgClass(lastLine(err.Error())), dc.format+": import of a well-formed document of the supported subset failed: "+clip(err.Error(), 600), files)
+		res.Violate(dc.format+"|import-error|"+clip(fw.MsgClass(lastLine(err.Error())), 60)+"|"+riskyTag(dc.risky), dc.format+": import of a well-formed document of the supported subset failed: "+clip(err.Error(), 600), files)
 		return res
 	}
 	files["output.sysl"] = out1
@@ -187,7 +208,7 @@ func runDoc(ctx *fw.Ctx, i int, dc *docCase) fw.Result {
 	if pi := fw.Guard(func() { out2, err2 = ImportDoc(path, dc.formatName, dc.text) }); pi != nil {
 		res.Violate(fw.CrashSig("panic", pi.Value, pi.Stack), dc.format+": importer panicked on the second import: "+pi.Value, with(files, "stack.txt", pi.Stack))
 	} else if err2 != nil || out2 != out1 {
-		res.Violate(dc.format+"|not-idempotent|in-process", dc.format+": a second import of the same document in a fresh importer gave different text: "+firstDiff(out1, out2), with(files, "output2.sysl", out2))
+		res.Violate(dc.format+"|not-idempotent|in-process|"+riskyTag(dc.risky), dc.format+": a second import of the same document in a fresh importer gave different text: "+firstDiff(out1, out2), with(files, "output2.sysl", out2))
 	}
 	res.Count("idempotence_pairs", 1)
 
@@ -200,10 +221,10 @@ func runDoc(ctx *fw.Ctx, i int, dc *docCase) fw.Result {
 			case ea != nil || eb != nil:
 				res.Note = fmt.Sprintf("cross-process import could not run: %v %v", ea, eb)
 			case a != b:
-				res.Violate(dc.format+"|not-idempotent|cross-process", dc.format+": two processes importing the same document gave different text: "+firstDiff(a, b), with(files, "output-process2.sysl", b))
+				res.Violate(dc.format+"|not-idempotent|cross-process|"+riskyTag(dc.risky), dc.format+": two processes importing the same document gave different text: "+firstDiff(a, b), with(files, "output-process2.sysl", b))
 				res.Count("crossprocess_pairs", 1)
 			case a != out1:
-				res.Violate(dc.format+"|not-idempotent|cross-process", dc.format+": a separate process gave different text than the in-process import: "+firstDiff(out1, a), with(files, "output-process2.sysl", a))
+				res.Violate(dc.format+"|not-idempotent|cross-process|"+riskyTag(dc.risky), dc.format+": a separate process gave different text than the in-process import: "+firstDiff(out1, a), with(files, "output-process2.sysl", a))
 				res.Count("crossprocess_pairs", 1)
 			default:
 				res.Count("crossprocess_pairs", 1)
@@ -244,6 +265,38 @@ func childImport(exe, path, format string) (string, error) {
 		return "", fmt.Errorf("%v: %s", err, clip(se.String(), 200))
 	}
 	return so.String(), nil
+}
+
+// childProbe imports the document in a child process and classifies a death or a hang.
+func childProbe(exe, path, format string, bound time.Duration) (kind, detail string) {
+	cctx, cancel := context.WithTimeout(context.Background(), bound)
+	defer cancel()
+	cmd := exec.CommandContext(cctx, exe, childCmd, path, format)
+	var so, se bytes.Buffer
+	cmd.Stdout, cmd.Stderr = &so, &se
+	err := cmd.Run()
+	switch {
+	case cctx.Err() != nil:
+		return "import-no-progress", fmt.Sprintf("no result within %v (killed)", bound)
+	case err == nil:
+		return "", ""
+	case strings.Contains(se.String(), "fatal error: stack overflow"):
+		return "import-crash|stack-overflow", "fatal error: stack overflow\n" + clip(se.String(), 1500)
+	case strings.Contains(se.String(), "fatal error:") || strings.Contains(se.String(), "panic:"):
+		return "import-crash|" + fw.MsgClass(lastLineWith(se.String(), "fatal error:", "panic:")), clip(se.String(), 1500)
+	}
+	return "", "" // an ordinary import error: reported by the in-process run
+}
+
+func lastLineWith(s string, marks ...string) string {
+	for _, l := range strings.Split(s, "\n") {
+		for _, m := range marks {
+			if strings.Contains(l, m) {
+				return l
+			}
+		}
+	}
+	return ""
 }
 
 func with(m map[string]string, k, v string) map[string]string {
